@@ -386,6 +386,38 @@ func structuredCases(thorough bool, emit func(c scaseS)) {
 		}
 	}
 
+	// ---- 16. every built-in that walks / sizes by a user-controlled length, on receivers that CLAIM
+	// 2^32-1, 2^31 or 10^9 elements. A throwing getter sits at the indices 0, 1, 2 and at the three top
+	// indices: every call below starts its walk at one of them (slice(1) / splice(1) start at index 1,
+	// slice(-2) and the backward walks at the top), so a conforming walk ends at its first step
+	// (RangeError "stop"); what is left to go wrong is an allocation sized by the claimed length before
+	// the walk starts.
+	hugeLens := []string{`-1`, `4294967295`, `2147483648`, `1e9`}
+	hugeRecv := []struct{ Name, Src string }{
+		{"arraylike", `(function(){ var o = {length: L}; stop(o, L); return o })()`},
+		{"array", `(function(){ var a = []; a.length = L >>> 0; stop(a, L); return a })()`},
+	}
+	hugeMethods := []string{`join()`, `join("")`, `toString()`, `toLocaleString()`, `concat([1])`, `pop()`, `push(7)`, `shift()`, `unshift(7)`, `slice(0)`, `slice(-2)`, `slice(1, 4294967295)`,
+		`splice(0, 4294967295)`, `splice(0, 0, "z")`, `splice(1)`, `reverse()`, `sort()`, `sort(function(){ return 0 })`, `indexOf(99)`, `lastIndexOf(99)`, `every(f)`, `some(f)`, `forEach(f)`,
+		`map(f)`, `filter(f)`, `reduce(g)`, `reduce(g, 0)`, `reduceRight(g)`, `reduceRight(g, 0)`}
+	for li, l := range hugeLens {
+		if !thorough && li%3 != 0 {
+			continue // quick tier: -1 and 10^9
+		}
+		for ri, rv := range hugeRecv {
+			pre := fmt.Sprintf(`var L = %s; function stop(o, l){ var t = function(){ throw new RangeError("stop") }; var n = l >>> 0; var ks = ["0", "1", "2", String(n - 1), String(n - 2), String(n - 3)]; for (var i = 0; i < ks.length; i++) Object.defineProperty(o, ks[i], {get: t, enumerable: true, configurable: true}) } var f = function(x){ return x }, g = function(a, b){ return a }; var o = %s; `, l, rv.Src)
+			for mi, m := range hugeMethods {
+				emit(scaseS{Key: group("huge-length", li, ri, mi), Src: pre + fmt.Sprintf(`(function(){ try { return typeof Array.prototype.%s } catch (e) { return e.name } })()`, callOn(m))})
+			}
+			for oi, other := range []string{`JSON.stringify(o)`, `JSON.stringify({a: 1}, o)`, `JSON.stringify([o])`, `String(o)`, `o + ""`, `Function.prototype.apply.call(f, null, o)`, `String.fromCharCode.apply(null, o)`,
+				`Math.max.apply(null, o)`, `new (Function.prototype.bind.apply(f, o))()`, `Array.apply(null, o)`, `Object.keys(o).length`, `Object.getOwnPropertyNames(o).length`, `Object.freeze(o) === o`,
+				`(function(){ var c = 0; for (var k in o) if (++c > 5) break; return c })()`, `[].concat(o).length`, `Array.prototype.concat.call([], o, o).length`, `Object.defineProperties({}, o)`, `"a,b".split(",", o.length).length`,
+				`new Array(o.length).length`} {
+				emit(scaseS{Key: group("huge-length-other", li, ri, oi), Src: pre + fmt.Sprintf(`(function(){ try { return typeof (%s) } catch (e) { return e.name } })()`, other)})
+			}
+		}
+	}
+
 	// ---- 12. percent escapes and lone surrogates
 	pct := []string{"%", "%4", "%41", "%E0", "%E0%A4", "%E0%A4%A", "%C0%80", "%ED%A0%80", "%FF", "%zz", "a", "%u0041", "%u00", "%F0%9F%98%80", "%F0%9F", "%80", "%25", ";/?:@&=+$,#"}
 	ufns := []string{"decodeURI", "decodeURIComponent", "unescape", "encodeURI", "encodeURIComponent", "escape"}
